@@ -219,6 +219,8 @@ Definition time_of (r : frame_rate) (l : label) : Q :=
    safe area and ends at the bottom edge of its last row VP + k - 1, text aligned to its bottom ("after"). *)
 Definition safe_left : Q := 5.   Definition safe_top : Q := 10.
 Definition safe_width : Q := 90. Definition safe_height : Q := 80.
+(* VP is 01..17h for teletext and 00..63h for open subtitles: the value 0 denotes the top row, like 1 *)
+Definition first_row (vp : Z) : Z := if vp <? 1 then 1 else vp.
 Definition row_top (rows r : Z) : Q := (safe_top + (inject_Z (r - 1) / inject_Z rows) * safe_height)%Q.
 Definition row_bottom (rows r : Z) : Q := (safe_top + (inject_Z r / inject_Z rows) * safe_height)%Q.
 
@@ -355,6 +357,7 @@ Definition max_rows (g : list Z) (c : rows_cfg) : option Z :=
 
 (* what is presented: paragraphs (a subtitle, or a cumulative set) made of timed parts *)
 Record part := mkPart { pt_begin : Q ; pt_end : Q ; pt_text : list piece }.
+(* pg_vp: the first row of the paragraph, pg_rows: the number of rows it occupies *)
 Record paragraph := mkParagraph { pg_sgn : Z ; pg_align : alignment ; pg_vp : Z ; pg_rows : Z ; pg_parts : list part }.
 
 Definition q_ltb (a b : Q) : bool := negb (Qle_bool b a).
@@ -381,13 +384,13 @@ Fixpoint paragraphs_go (r : frame_rate) (start : Q) (dec : list Z -> text) (tele
         match open_set with
         | Some _ => None
         | None => paragraphs_go r start dec teletext rest (b_sn h)
-                    (if kept then acc ++ [mkParagraph (b_sgn h) (justification (b_jc h)) (b_vp h) (rows_occupied (s_field s)) [mkPart b e txt]] else acc) None
+                    (if kept then acc ++ [mkParagraph (b_sgn h) (justification (b_jc h)) (first_row (b_vp h)) (rows_occupied (s_field s)) [mkPart b e txt]] else acc) None
         end
       else if cs =? 1 then
         match open_set with
         | Some _ => None
         | None => paragraphs_go r start dec teletext rest (b_sn h)
-                    (if kept then acc ++ [mkParagraph (b_sgn h) (justification (b_jc h)) (b_vp h) (rows_occupied (s_field s)) [mkPart b e (txt ++ [Break])]] else acc) (Some kept)
+                    (if kept then acc ++ [mkParagraph (b_sgn h) (justification (b_jc h)) (first_row (b_vp h)) (rows_occupied (s_field s)) [mkPart b e (txt ++ [Break])]] else acc) (Some kept)
         end
       else if (cs =? 2) || (cs =? 3) then
         match open_set with
